@@ -169,6 +169,55 @@ impl Runner {
                     "a": {"vamm": v, "side": side, "margin": margin, "leverage": lev, "limit": limit},
                     "funds": op["funds"].as_i64().unwrap_or(0)}))
             }
+            "offset" => {
+                // an OpenPosition (1x) by `s` whose base amount is exactly minus the vAMM's net position: afterwards the
+                // book is exactly flat with positions live.  The quote amount is found by bisection over the vAMM's own
+                // InputAmount quotes; no order is placed when no quote amount yields exactly that base amount.
+                let v = op["v"].as_str().unwrap_or("vamm1").to_string();
+                let t = op["s"].as_str().unwrap_or("tr2").to_string();
+                let post = self.out.last()?["post"].clone();
+                let total = crate::world::num(&post["vamm"][&v]["st"]["total"]);
+                if total == 0 {
+                    return None;
+                }
+                let (side, dir) = if total < 0 { ("buy", "add") } else { ("sell", "rem") };
+                let want = total.abs();
+                let quote = |me: &Self, amt: i64| -> Option<i64> {
+                    let q = me.w.build_query(&v, "input_amount", &json!({"dir": dir, "amount": amt})).ok()?;
+                    let res = me.w.query_raw(&v, &q).ok()?;
+                    Some(crate::world::num(&res))
+                };
+                let (mut lo, mut hi) = (1i64, crate::world::num(&post["vamm"][&v]["st"]["x"]) - 1);
+                while lo < hi {
+                    let mid = (lo + hi) / 2;
+                    match quote(self, mid) {
+                        Some(b) if b >= want => hi = mid,
+                        Some(_) => lo = mid + 1,
+                        None => hi = mid,
+                    }
+                }
+                if quote(self, lo)? != want {
+                    return None;
+                }
+                let native = post["eng"]["cfg"]["native"].as_bool().unwrap_or(false);
+                Some(json!({"k": "tx", "c": "engine", "m": "open_position", "s": t,
+                    "a": {"vamm": v, "side": side, "margin": lo, "leverage": 10i64.pow(self.w.dec), "limit": 0},
+                    "funds": if native { lo } else { 0 }}))
+            }
+            "transfer_all" => {
+                // the account moves its whole cw20 wallet (less `keep`) to another account
+                let t = op["s"].as_str().unwrap_or("tr1").to_string();
+                let to = op["to"].as_str().unwrap_or("stranger").to_string();
+                let post = self.out.last()?["post"].clone();
+                if post["eng"]["cfg"]["native"].as_bool().unwrap_or(false) {
+                    return None;
+                }
+                let amt = self.w.balance(&t) - op["keep"].as_i64().unwrap_or(0);
+                if amt <= 0 {
+                    return None;
+                }
+                Some(json!({"k": "tx", "c": "token", "m": "transfer", "s": t, "a": {"recipient": to, "amount": amt}}))
+            }
             "withdraw_rel" => {
                 // a WithdrawMargin of the trader's free collateral (as the engine reports it) plus an offset
                 let v = op["v"].as_str().unwrap_or("vamm1").to_string();
@@ -223,7 +272,7 @@ impl Runner {
     /// execute one op; returns (ok, fault_fired)
     pub fn op(&mut self, op: &Value) -> (bool, bool) {
         let k = op["k"].as_str().unwrap_or("tx");
-        if k == "flatten" || k == "oracle_rel" || k == "open_lim" || k == "withdraw_rel" || k == "zero_equity" {
+        if k == "flatten" || k == "oracle_rel" || k == "open_lim" || k == "withdraw_rel" || k == "zero_equity" || k == "transfer_all" || k == "offset" {
             return match self.resolve(op) {
                 Some(o) => self.op(&o),
                 None => (false, false),
